@@ -91,7 +91,7 @@ Next ==
      /\ \E f \in Files, fl \in FlagSets, to \in (IF WithTimeout THEN BOOLEAN ELSE {FALSE}), m \in {"mem", "blocks"} :
           m \in ModeOf(f) /\ ScanFresh(f, fl, to, m)
   \/ /\ UNCHANGED <<nscans, nnr>>
-     /\ \/ ScanResume \/ BlockTimeout \/ IterBlock \/ BlockDone \/ IterNull \/ ImportSkip \/ ExecRule \/ ExecTimeout
+     /\ \/ ScanResume \/ BlockTimeout \/ IterBlock \/ ScanBlock \/ BlockDone \/ IterNull \/ ImportSkip \/ ExecRule \/ ExecTimeout
         \/ ExecEnd \/ ReportSkip \/ ExecNotReady
         \/ \E r \in Replies : ImportModule(r) \/ ModuleImported(r) \/ ReportRule(r) \/ Finished(r)
         \/ \E r \in Replies, i \in RuleIdx : TooMany(i, r)
